@@ -137,6 +137,14 @@ func (w *World) exec(cs *clientState, idx int, op Op) *Rec {
 			s.Note("takeover node %d at %d", op.Node, rev)
 		}
 		return nil
+	case "followersync":
+		// what a follower read does to a standby node: its backend adopts the leader's committed revision
+		if op.Node < len(w.Nodes) && op.W < len(w.Nodes) && op.Node != op.W {
+			rev := w.committed(op.W)
+			w.Nodes[op.Node].B.SetCurrentRevision(rev)
+			s.Note("follower %d synced to %d", op.Node, rev)
+		}
+		return nil
 	case "crash":
 		// the node stops after this request: its goroutines are never resumed, its engine calls never return
 		s.CrashNode(op.Node)
@@ -154,7 +162,12 @@ func (w *World) exec(cs *clientState, idx int, op Op) *Rec {
 	if op.K == "burst" {
 		// op.Limit sequential successful writes on one key (create, then guarded updates)
 		for i := int64(0); i < op.Limit; i++ {
-			sub := Op{K: "update", Key: op.Key, Val: op.Val + strconv.FormatInt(i, 10), Rev: Rev{M: "known"}, Node: op.Node}
+			key := op.Key
+			if op.Ms > 0 {
+				// spread over op.Ms distinct keys, so that a lost event is not healed by the next one
+				key += strconv.FormatInt(i%op.Ms, 10)
+			}
+			sub := Op{K: "update", Key: key, Val: op.Val + strconv.FormatInt(i, 10), Rev: Rev{M: "known"}, Node: op.Node}
 			r := w.exec(cs, idx*100000+int(i), sub)
 			if op.W != 0 && r != nil && r.OK {
 				// one broadcast batch per write: wait until the write is committed
@@ -440,11 +453,32 @@ func (w *World) startConsumer(wa *Watcher) {
 			next, every = uint64(a), uint64(b)
 		}
 	}
+	// lag:<n>:every:<m>: idle until the node has committed n revisions more than this consumer has seen
+	// (for one-event batches: n batches are waiting, wherever they are buffered), then one batch every m steps.
+	// Unlike from:<step>, this does not depend on how many steps a write takes.
+	lagStart, started := uint64(0), true
+	if strings.HasPrefix(wa.Consume, "lag:") {
+		parts := strings.Split(wa.Consume, ":")
+		if len(parts) == 4 {
+			a, _ := strconv.Atoi(parts[1])
+			b, _ := strconv.Atoi(parts[3])
+			lagStart, every, started = uint64(a), uint64(b), false
+		}
+	}
 	s := w.S
 	w.S.Go("consumer"+strconv.Itoa(wa.Client)+"."+strconv.Itoa(wa.ID), -1, func() {
 		for {
 			s.YieldUntil("consume", func() bool {
-				return wa.stop || (len(wa.Ch) > 0 && s.StepNo() >= next)
+				if !started && !wa.stop {
+					seen := wa.ComAtRet // committed revision when the watch was registered
+					if n := len(wa.Events); n > 0 {
+						seen = wa.Events[n-1].Rev
+					}
+					if com := w.committed(wa.Node); com >= seen && com-seen >= lagStart {
+						started = true
+					}
+				}
+				return wa.stop || (started && len(wa.Ch) > 0 && s.StepNo() >= next)
 			})
 			if wa.stop {
 				return
